@@ -994,7 +994,11 @@ func (d *driver) judge() *Outcome {
 					if kindsOf(acc) != fa.Kind {
 						detail = "want-" + kindsOf(acc) + "-got-" + fa.Kind
 					}
-					add("answer/"+detail+"/"+ob.StartRel+"/dup="+dupRel,
+					sig := "answer/" + detail + "/" + ob.StartRel + "/dup=" + dupRel
+					if rs.spec.Shape != "" {
+						sig += "/" + rs.spec.Shape
+					}
+					add(sig,
 						fmt.Sprintf("r%d (%s start=%d, tip %d..%d, arrival %s): got %s, reference allows %v",
 							ri, rs.spec.OpStr, rs.spec.Start, rs.vlo, rs.vhi, rs.arrival, fa, acc))
 				}
